@@ -1449,7 +1449,34 @@ impl Analyzable for Program {
 
         let txs = self.txs.analyze(self.scope.clone());
 
-        parties + policies + types + aliases + txs + assets
+        // env vars, parties and tx parameters all end up as lower-cased argument keys of the
+        // lowered IR, so that's how they have to be unique
+        let mut arg_keys = std::collections::HashSet::new();
+        let mut duplicates = AnalyzeReport::default();
+
+        let env_names = self
+            .env
+            .iter()
+            .flat_map(|env| env.fields.iter().map(|field| field.name.clone()));
+
+        let party_names = self.parties.iter().map(|party| party.name.value.clone());
+
+        for name in env_names.chain(party_names) {
+            if !arg_keys.insert(name.to_lowercase()) {
+                duplicates = duplicates + Error::DuplicateDefinition(name).into();
+            }
+        }
+
+        for tx in self.txs.iter() {
+            for param in tx.parameters.parameters.iter() {
+                if arg_keys.contains(&param.name.value.to_lowercase()) {
+                    duplicates =
+                        duplicates + Error::DuplicateDefinition(param.name.value.clone()).into();
+                }
+            }
+        }
+
+        parties + policies + types + aliases + txs + assets + duplicates
     }
 
     fn is_resolved(&self) -> bool {
